@@ -47,7 +47,16 @@ func (i *InboundFee) CalcFee(amt lnwire.MilliSatoshi) int64 {
 
 	// Calculate proportional component. To keep the integer math simple,
 	// positive fees are rounded down while negative fees are rounded up.
-	fee += rate * int64(amt) / feeRateParts
+	//
+	// The amount is split into whole multiples of feeRateParts and a
+	// remainder so that no intermediate product overflows int64: with the
+	// capped rate, rate*amt exceeds 2^63 for amounts above ~9.2 BTC. Both
+	// summands carry the sign of the rate, so truncating the remainder
+	// term alone yields exactly rate*amt/feeRateParts truncated toward
+	// zero.
+	whole := int64(amt / feeRateParts)
+	rem := int64(amt % feeRateParts)
+	fee += rate*whole + rate*rem/feeRateParts
 
 	return fee
 }
